@@ -1,31 +1,10 @@
 ------------------------------ MODULE Ordering ------------------------------
 (***************************************************************************)
-(* Ordering and aggregation of test results (ec-core test_results.rs,      *)
-(* individual/ec.rs), property C15.  A score orders ascending (bigger is   *)
-(* better), an error descending (smaller is better); the "better" element  *)
-(* is the GREATER one in both orders.  A score is never comparable to an   *)
-(* error.  A vector of results, and an individual, compare as their total  *)
-(* does, and the total is the sum of the per-case results.                 *)
+(* Ordering and aggregation of test results, property C15: OrderingCore    *)
+(* (the order on single results; its laws are proved for all integers in   *)
+(* OrderingProofs.tla) plus totals of vectors.                             *)
 (***************************************************************************)
-EXTENDS Integers, Sequences
-
-Sign(x) == IF x < 0 THEN "lt" ELSE IF x = 0 THEN "eq" ELSE "gt"
-
-ScoreCmp(a, b) == Sign(a - b)
-ErrorCmp(a, b) == Sign(b - a)
-Cmp(kind, a, b) == IF kind = "score" THEN ScoreCmp(a, b) ELSE ErrorCmp(a, b)
-
-(* everything a user can ask about two values of one kind, derived from the *)
-(* one relation *)
-Answers(c, a, b) ==
-  [cmp |-> c, pcmp |-> c,
-   eq |-> c = "eq", lt |-> c = "lt", le |-> c \in {"lt", "eq"},
-   gt |-> c = "gt", ge |-> c \in {"gt", "eq"},
-   max |-> IF c = "gt" THEN a ELSE b,      \* for c = "eq" the two are equal
-   min |-> IF c = "gt" THEN b ELSE a]
-
-(* a score against an error (TestResult): incomparable both ways *)
-CrossAnswers == [pcmp |-> "none", eq |-> FALSE, lt |-> FALSE, le |-> FALSE, gt |-> FALSE, ge |-> FALSE]
+EXTENDS OrderingCore
 
 RECURSIVE Sum(_)
 Sum(s) == IF s = <<>> THEN 0 ELSE Head(s) + Sum(Tail(s))
@@ -33,5 +12,4 @@ Sum(s) == IF s = <<>> THEN 0 ELSE Head(s) + Sum(Tail(s))
 (* vectors of results and individuals compare as their totals do *)
 ResultsCmp(kind, r, s) == Cmp(kind, Sum(r), Sum(s))
 
-Flip(c) == IF c = "lt" THEN "gt" ELSE IF c = "gt" THEN "lt" ELSE "eq"
 =============================================================================
